@@ -342,6 +342,83 @@ def check_single(case, ctx):
             ctx.nontrivial = ctx.nontrivial or cov is not None
 
 
+class HandlerFailure(Exception):
+    pass
+
+
+def check_handler_faults(case, ctx):
+    """find() with info_via='both'/'handler': the coverage comes from the file
+    handler; a handler that fails for one file during one search must not
+    change the answers of later searches (fault sequence + history)."""
+    from typhon.files import FileHandler, FileInfo, FileSet
+    from typhon.files.fileset import NoFilesError
+    tpl = case["template"]
+    via = case["info_via"]
+    ctx.label("via-" + via)
+    with G.Sandbox() as box:
+        root = box.mkdir("tree")
+        pop = G.make_population(root, tpl, case["files"])
+        if not pop.files:
+            return
+        extra = case["end_extra_s"]
+        truth = {}
+        for i, f in enumerate(pop.files):
+            add = extra[i % len(extra)]
+            t1 = f.t1 if add is None else f.t1 + dt.timedelta(seconds=add)
+            truth[f.path] = (f.t0, t1, add is not None)
+        failing = set()
+        calls = {}
+
+        def info(file_info):
+            path = file_info.path
+            calls[path] = calls.get(path, 0) + 1
+            if path in failing:
+                raise HandlerFailure(path)
+            t0, t1, overridden = truth[path]
+            if via == "handler":
+                return FileInfo(path, [t0, t1], {})
+            return FileInfo(path, [None, t1 if overridden else None], {})
+
+        cov = tpl["coverage_s"]
+        fileset = FileSet(
+            pop.path, name="c01h", handler=FileHandler(info=info),
+            info_via=via, placeholder=G.user_placeholder_arg(tpl),
+            time_coverage=None if cov is None else dt.timedelta(seconds=cov))
+        failed_once = False
+        for op in case["ops"]:
+            start, end = op["start"], op["end"]
+            lo = dt.datetime.min if start is None else start
+            hi = dt.datetime.max if end is None else end
+            if hi <= lo:
+                continue
+            exp = sorted((p, t[0], t[1]) for p, t in truth.items()
+                         if t[0] < hi and t[1] >= lo)
+            failing.clear()
+            if op["fail"] is not None:
+                failing.add(pop.files[op["fail"] % len(pop.files)].path)
+            where = lambda: ("op=%r via=%s template=%r failing=%r\ntruth=%r"
+                             % (op, via, pop.path, sorted(failing), truth))
+            try:
+                got = list(fileset.find(start, end, no_files_error=False))
+            except HandlerFailure:
+                ctx.check(bool(failing), "handler/unexpected-failure", where)
+                failed_once = True
+                ctx.label("handler-failed-during-find")
+                continue
+            got_t = sorted((g.path, g.times[0], g.times[1]) for g in got)
+            ctx.check(got_t == exp, "handler/wrong-files-or-times", lambda: (
+                "expected=%r\ngot=%r\n%s%s" % (
+                    exp, got_t, where(),
+                    "\n(after an earlier search in which the handler "
+                    "failed)" if failed_once else "")))
+            if exp and len(exp) < len(truth):
+                ctx.nontrivial = True
+            if failed_once and exp:
+                ctx.label("search-after-handler-failure")
+        if any(t[2] for t in truth.values()):
+            ctx.label("handler-overrides-end")
+
+
 # --------------------------------------------------------------------------
 # strategies
 # --------------------------------------------------------------------------
@@ -458,10 +535,47 @@ def single_cases(draw):
             "queries": queries}
 
 
+@st.composite
+def handler_fault_cases(draw):
+    tpl = draw(G.templates(max_dirs=3, allow_wild=False, allow_ms=False))
+    last = tpl["file"][-1]
+    if last[0] == "lit" and last[1].endswith(".gz"):
+        last[1] = last[1][:-3]     # the stub handler never opens the file
+    files = draw(G.populations(tpl, min_files=1, max_files=10))
+    planned = G.plan_population(tpl, files, "")
+    unit = G.RES_DELTA[G.resolution_of(tpl)]
+    limit = G.dir_period(tpl)
+    # handler end = nominal end + extra, still within one directory period
+    extras = []
+    for f in planned:
+        room = None if limit is None else \
+            int((limit - (f.t1 - f.t0)).total_seconds())
+        choices = [None, None, 1, 35 * 60, 3600]
+        choices = [c for c in choices
+                   if c is None or room is None or c <= room]
+        extras.append(draw(st.sampled_from(choices)))
+    bounds = sorted({f.t0 for f in planned} | {f.t1 for f in planned}
+                    | {f.t1 + dt.timedelta(seconds=e or 0)
+                       for f, e in zip(planned, extras)})
+    ops = []
+    for _ in range(draw(st.integers(2, 6))):
+        ops.append({
+            "start": draw(st.one_of(st.none(),
+                                    boundary_instant(bounds, unit))),
+            "end": draw(st.one_of(st.none(), boundary_instant(bounds, unit))),
+            "fail": draw(st.one_of(st.none(), st.integers(0, 20)))})
+    return {"template": tpl, "files": files, "end_extra_s": extras or [None],
+            "info_via": draw(st.sampled_from(["both", "both", "handler"])),
+            "ops": ops}
+
+
 def suites(tier):
     return [
         Suite("find", check_find, strategy=find_cases(),
               examples={"quick": 250, "thorough": 2500}),
         Suite("single-file", check_single, strategy=single_cases(),
               examples={"quick": 40, "thorough": 400}),
+        Suite("handler-faults", check_handler_faults,
+              strategy=handler_fault_cases(),
+              examples={"quick": 100, "thorough": 1000}),
     ]
